@@ -380,11 +380,19 @@ class NamespaceClass(Namespace[symtable.Class]):
         elif symbol.is_global():
             return self.get_load_global(name)
         else:
-            # a class member
-            return Subscript(
-                value=self.class_member_dict_expr,
-                slice=Constant(value=name),
-                ctx=Load(),
+            # a class member; until it is assigned the name is a global one
+            return IfExp(
+                test=Compare(
+                    left=Constant(value=name),
+                    ops=[In()],
+                    comparators=[self.class_member_dict_expr],
+                ),
+                body=Subscript(
+                    value=self.class_member_dict_expr,
+                    slice=Constant(value=name),
+                    ctx=Load(),
+                ),
+                orelse=self.get_load_global(name),
             )
 
     def get_load_assigned(self, name: str) -> expr:
